@@ -2,30 +2,57 @@
    Only property statements live here; proofs are in Proofs.v.
 
    Reading guide.  [run c evs st] (Core.v) runs a sequence of events - decoded requests and
-   background flushes - against the ingest buffer; a panic on a goroutine nobody recovers ends
-   the run with [Died].  [run_server s evs] (Model.v) puts the MessagePack and line-protocol
-   request fronts before it.  The guard [event_okb] / [sevent_ok] says: every batch a request
-   decodes to has unique column names that are non-empty, do not start with '_' and contain no
-   ',', an int64 time column, and columns of one length.  The unguarded property is refuted on
-   the faithful model by four witnesses, one per clause of the guard. *)
+   background flushes - against the ingest buffer; Go's panicking operations are explicit
+   outcomes of the flush ([FPanic]); a panic on a goroutine nobody recovers ends the run with
+   [Died].  [run_server s evs] (Model.v) puts the MessagePack and line-protocol request fronts
+   before it, with the configuration of the code as it is (flush panics recovered, commit
+   763beab).  The model follows /repo after commits 6c35f6a (the request front refuses empty
+   names and a row-format field named "time"; getSchema skips empty names), 5cfca39 (collision-free
+   routing key), 763beab (recover in the flush paths). *)
 From Coq Require Import List ZArith NArith Bool.
 From Arc Require Import NoCrash.Core NoCrash.Model NoCrash.Proofs.
 Import ListNotations.
 
-(* ---- for ANY decoder: every sequence of decoded requests and background flushes ---------- *)
+(* ---- no request sequence can kill the process --------------------------------------------- *)
 
-(* Starting from any state that satisfies the buffer invariant (in particular the empty one),
-   a sequence whose decoded batches satisfy the guard never kills the process, is never at the
-   mercy of Go's map order, and every event gets its answer. *)
-Theorem C04_core_no_panic_guarded : forall c evs st,
+(* Full strength, no guard: for EVERY sequence of requests and background flushes the server
+   process does not die - whatever the requests decode to. *)
+Theorem C04_no_panic : forall s evs rs, r_end (run_server s evs) <> Died rs.
+Proof. exact server_no_panic. Qed.
+Print Assumptions C04_no_panic.
+
+(* The same for ANY decoder (CSV, Parquet, TLE, compressed bodies: whatever batches reach the
+   buffer), from ANY state, given only that a panic inside a flush is recovered. *)
+Theorem C04_core_no_panic : forall c evs st rs,
+  recover_flush c = true -> r_end (run c evs st) <> Died rs.
+Proof. exact core_no_panic. Qed.
+Print Assumptions C04_core_no_panic.
+
+(* ... and that hypothesis carries weight: the same events kill a server that does not recover
+   (the code before 763beab), while the recovering one completes - the flush fails, the row it
+   carried is dropped (not retried; only a WAL replay, not modelled, would bring it back). *)
+Theorem C04_recover_is_what_saves_the_process :
+  r_end (run {| max_rows := 1000000; recover_flush := false |} w_ragged init) = Died [PIndexRange] /\
+  (let res := run {| max_rows := 1000000; recover_flush := true |} w_ragged init in
+   r_obs res = [OStatus S2xx; OFlush true] /\ r_end res = Completed /\ held_rows (r_state res) = 0).
+Proof. split; [exact without_recover_dies|exact recover_loses_rows]. Qed.
+Print Assumptions C04_recover_is_what_saves_the_process.
+
+(* ---- no flush even fails, rows are conserved: weakest guard -------------------------------- *)
+
+(* The guard [event_okb] no longer mentions column NAMES: a batch must be a Go map (unique
+   names) with an int64 time column whose columns all have the length of the record count.
+   Then, with or without the recover, from any state satisfying the buffer invariant: no panic
+   arises in any flush, no outcome depends on Go's map order, every event is answered, ... *)
+Theorem C04_core_no_flush_failure_guarded : forall c evs st,
   Inv st -> forallb event_okb evs = true ->
   r_end (run c evs st) = Completed /\ length (r_obs (run c evs st)) = length evs.
-Proof. exact core_no_panic_guarded. Qed.
-Print Assumptions C04_core_no_panic_guarded.
+Proof. exact core_no_flush_failure_guarded. Qed.
+Print Assumptions C04_core_no_flush_failure_guarded.
 
-(* Rows are conserved: what is stored or buffered grows by exactly the rows of the records the
-   write loops reached (all records of an accepted request; the records before the first
-   failing one otherwise), and after one more background flush all of it is stored. *)
+(* ... and rows are conserved: what is stored or buffered grows by exactly the rows of the
+   records the write loops reached (all records of an accepted request; the records before the
+   first failing one otherwise), and after one more background flush all of it is stored. *)
 Theorem C04_core_rows_conserved_guarded : forall c evs st,
   Inv st -> forallb event_okb evs = true ->
   held_rows (r_state (run c evs st)) = held_rows st + events_rows evs /\
@@ -34,73 +61,56 @@ Theorem C04_core_rows_conserved_guarded : forall c evs st,
 Proof. exact core_rows_conserved_guarded. Qed.
 Print Assumptions C04_core_rows_conserved_guarded.
 
+Theorem C04_rows_conserved_guarded : forall s evs,
+  forallb (sevent_ok s) evs = true ->
+  (r_end (run_server s evs) = Completed /\ length (r_obs (run_server s evs)) = length evs) /\
+  held_rows (r_state (run_server s evs)) = events_rows (map (front_ev s) evs) /\
+  (st_bufs (r_state (run_server s (evs ++ [SFlush]))) = [] /\
+   stored_rows (r_state (run_server s (evs ++ [SFlush]))) = events_rows (map (front_ev s) evs)).
+Proof.
+  intros s evs H. split; [exact (server_no_flush_failure_guarded s evs H)|exact (server_rows_conserved_guarded s evs H)].
+Qed.
+Print Assumptions C04_rows_conserved_guarded.
+
+(* ---- a refused request stores nothing ------------------------------------------------------ *)
+
 (* A request the front answers itself, or whose first record already fails, changes nothing
-   (no guard needed). *)
+   (any decoder, no guard). *)
 Theorem C04_core_front_rejected_stores_nothing : forall c st,
   (forall s, step c st (EReq (DStatus s)) = (st, Some (OStatus s), Completed)) /\
   (forall db rs, step c st (EReq (DWrite db (RFail :: rs))) = (st, Some (OStatus S5xx), Completed)).
 Proof. exact core_front_rejected_stores_nothing. Qed.
 Print Assumptions C04_core_front_rejected_stores_nothing.
 
-(* ---- the server with the MessagePack and line-protocol fronts ----------------------------- *)
-
-Theorem C04_no_panic_guarded : forall s evs,
-  forallb (sevent_ok s) evs = true ->
-  r_end (run_server s evs) = Completed /\ length (r_obs (run_server s evs)) = length evs.
-Proof. exact server_no_panic_guarded. Qed.
-Print Assumptions C04_no_panic_guarded.
-
-Theorem C04_rows_conserved_guarded : forall s evs,
-  forallb (sevent_ok s) evs = true ->
-  held_rows (r_state (run_server s evs)) = events_rows (map (front_ev s) evs) /\
-  (st_bufs (r_state (run_server s (evs ++ [SFlush]))) = [] /\
-   stored_rows (r_state (run_server s (evs ++ [SFlush]))) = events_rows (map (front_ev s) evs)).
-Proof. exact server_rows_conserved_guarded. Qed.
-Print Assumptions C04_rows_conserved_guarded.
-
-(* Whatever the request front refuses (invalid database or measurement name, undecodable
-   body, decoder panic recovered as 500) leaves buffer and storage as they were. *)
+(* Whatever the request front refuses (invalid database or measurement name, undecodable body,
+   decoder panic recovered as 500, an empty column name, a row-format field named "time")
+   leaves buffer and storage as they were. *)
 Theorem C04_front_rejected_stores_nothing : forall s r c st x,
   front s r = DStatus x -> step c st (EReq (front s r)) = (st, Some (OStatus x), Completed).
 Proof. exact server_front_rejected_stores_nothing. Qed.
 Print Assumptions C04_front_rejected_stores_nothing.
 
-(* ---- the unguarded property is FALSE of the code: one witness per clause of the guard ---- *)
+(* ---- the sequences that crashed the server before the fixes -------------------------------- *)
 
-(* {m:"cpu", columns:{time:[..], "":[1,2]}}: answered 204, then the flush goroutine indexes
-   name[0] of the empty column name. *)
-Theorem C04_no_panic_refuted_empty_name :
-  r_obs (run_server prod_cfg w_empty_name) = [OStatus S2xx] /\
-  r_end (run_server prod_cfg w_empty_name) = Died [PIndexEmptyName].
-Proof. exact refuted_empty_name. Qed.
-Print Assumptions C04_no_panic_refuted_empty_name.
+(* Column "" : refused 400, nothing stored.  Column _x as int then string, and the
+   signature-string collision ({Z:f64, a:i64, "q:str,a":str} / {"Z:f64,a:i64,q":str, a:str}):
+   both requests accepted, all 4 rows stored.  Row-format field "time": refused 400. *)
+Theorem C04_old_crash_witnesses_fixed :
+  (r_obs (run_server prod_cfg w_empty_name) = [OStatus S4xx; OFlush false] /\
+   stored_rows (r_state (run_server prod_cfg w_empty_name)) = 0) /\
+  (r_obs (run_server prod_cfg w_underscore) = [OStatus S2xx; OStatus S2xx; OFlush false] /\
+   stored_table (r_state (run_server prod_cfg w_underscore)) = [(str_default_cpu, 4%N)]) /\
+  (r_obs (run_server prod_cfg w_collision) = [OStatus S2xx; OStatus S2xx; OFlush false] /\
+   stored_table (r_state (run_server prod_cfg w_collision)) = [(str_default_cpu, 4%N)]) /\
+  (r_obs (run_server prod_cfg w_row_time) = [OStatus S4xx; OFlush false] /\
+   stored_rows (r_state (run_server prod_cfg w_row_time)) = 0).
+Proof. exact old_witnesses_fixed. Qed.
+Print Assumptions C04_old_crash_witnesses_fixed.
 
-(* column "_x" as int64 then as string: getColumnSignature skips it, both requests (204, 204)
-   share a buffer, mergeBatches' type assertion panics in the flush goroutine. *)
-Theorem C04_no_panic_refuted_underscore_type_change :
-  r_obs (run_server prod_cfg w_underscore) = [OStatus S2xx; OStatus S2xx] /\
-  r_end (run_server prod_cfg w_underscore) = Died [PTypeAssert].
-Proof. exact refuted_underscore. Qed.
-Print Assumptions C04_no_panic_refuted_underscore_type_change.
+(* ---- what is still FALSE of the code ------------------------------------------------------- *)
 
-(* no '_' and no empty name needed: {Z:f64, a:i64, "q:str,a":str} and {"Z:f64,a:i64,q":str, a:str}
-   have the same signature STRING, column a changes type inside one buffer. *)
-Theorem C04_no_panic_refuted_signature_collision :
-  r_obs (run_server prod_cfg w_collision) = [OStatus S2xx; OStatus S2xx] /\
-  r_end (run_server prod_cfg w_collision) = Died [PTypeAssert].
-Proof. exact refuted_collision. Qed.
-Print Assumptions C04_no_panic_refuted_signature_collision.
-
-(* row format with a FIELD named "time" earlier than the row's timestamp: a 2-entry time column
-   over 1-row columns, applyPermutation indexes out of range in the flush goroutine. *)
-Theorem C04_no_panic_refuted_row_time_field :
-  r_obs (run_server prod_cfg w_row_time) = [OStatus S2xx] /\
-  r_end (run_server prod_cfg w_row_time) = Died [PIndexRange].
-Proof. exact refuted_row_time. Qed.
-Print Assumptions C04_no_panic_refuted_row_time_field.
-
-(* "a rejected request stores no rows" is false: a batch whose SECOND record fails is answered
-   500 and the first record's 2 rows are stored. *)
+(* "a rejected request stores no rows": a batch whose SECOND record fails is answered 500 and
+   the first record's 2 rows are stored. *)
 Theorem C04_rejected_stores_nothing_refuted :
   r_obs (run_server prod_cfg w_partial) = [OStatus S5xx; OFlush false] /\
   r_end (run_server prod_cfg w_partial) = Completed /\
@@ -108,13 +118,14 @@ Theorem C04_rejected_stores_nothing_refuted :
 Proof. exact refuted_partial. Qed.
 Print Assumptions C04_rejected_stores_nothing_refuted.
 
-(* "stored correctly or rejected" is false: the empty-named column's request is accepted (204),
-   the next request's schema-change flush panics in the handler (recovered: 500) and the 2
-   accepted rows are gone. *)
+(* "stored correctly or rejected", re-decided on the fixed code: still false.  The row-format
+   record {fields:{a:"x"}, tags:{a:"t", a_value:"u"}} is accepted (204); rowsToColumnar's
+   "_value" rename makes field a and tag a_value share one column of 2 entries for 1 row; the
+   flush fails and the accepted row is neither stored nor kept. *)
 Theorem C04_accepted_rows_lost_refuted :
-  r_obs (run_server prod_cfg w_lost) = [OStatus S2xx; OStatus S5xx; OFlush false] /\
-  r_end (run_server prod_cfg w_lost) = Completed /\
-  stored_rows (r_state (run_server prod_cfg w_lost)) = 0.
+  r_obs (run_server prod_cfg w_suffix_collision) = [OStatus S2xx; OFlush true] /\
+  r_end (run_server prod_cfg w_suffix_collision) = Completed /\
+  held_rows (r_state (run_server prod_cfg w_suffix_collision)) = 0.
 Proof. exact refuted_lost. Qed.
 Print Assumptions C04_accepted_rows_lost_refuted.
 
@@ -130,21 +141,24 @@ Print Assumptions C04_decoder_panic_recovered.
 
 (* ---- non-vacuity ------------------------------------------------------------------------- *)
 
-(* The guard is satisfiable by a non-trivial sequence (a type change of an ordinary column and
-   a line-protocol write to the same measurement): three 204s, 5 rows stored. *)
+(* The guard is satisfiable by a non-trivial sequence (type changes of an ordinary and of an
+   '_'-prefixed column, then line protocol on the same measurement): five 204s, 9 rows stored. *)
 Example C04_guard_nonvacuous :
   forallb (sevent_ok prod_cfg) w_guarded = true /\
-  r_obs (run_server prod_cfg (w_guarded ++ [SFlush])) = [OStatus S2xx; OStatus S2xx; OStatus S2xx; OFlush false] /\
-  stored_table (r_state (run_server prod_cfg (w_guarded ++ [SFlush]))) = [([100;101;102;97;117;108;116;47;99;112;117]%N, 5%N)].
+  r_obs (run_server prod_cfg (w_guarded ++ [SFlush])) =
+    [OStatus S2xx; OStatus S2xx; OStatus S2xx; OStatus S2xx; OStatus S2xx; OFlush false] /\
+  stored_table (r_state (run_server prod_cfg (w_guarded ++ [SFlush]))) = [(str_default_cpu, 9%N)].
 Proof. exact guarded_example. Qed.
 
 (* The empty state satisfies the invariant of the core theorems. *)
 Example C04_invariant_nonvacuous : Inv init.
 Proof. exact Inv_init. Qed.
 
-(* Each refutation witness leaves the guard through exactly one clause (1 empty name, 2 '_'
-   prefix, 4 ',' in a name, 8 columns of different lengths); the guarded example through none. *)
+(* The guard excludes only class 8 (columns of different lengths): '_' names (2) and ',' names (4)
+   are inside it, the suffix-collision witness is outside. *)
 Example C04_excluded_classes :
   map (fun evs => fold_left (fun a e => N.lor a (event_class (front_ev prod_cfg e))) evs 0%N)
-      [w_empty_name; w_underscore; w_collision; w_row_time; w_guarded] = [1; 2; 4; 8; 0]%N.
-Proof. exact witness_classes. Qed.
+      [w_underscore; w_collision; w_suffix_collision; w_guarded] = [2; 4; 8; 2]%N /\
+  forallb (sevent_ok prod_cfg) w_underscore = true /\ forallb (sevent_ok prod_cfg) w_collision = true /\
+  forallb (sevent_ok prod_cfg) w_suffix_collision = false.
+Proof. split; [exact witness_classes|vm_compute; repeat split; reflexivity]. Qed.
